@@ -72,6 +72,7 @@ type ExploreStats struct {
 	UnknownFeas  int64
 	MaxLoopSeen  int
 	Checks       int64
+	Cut          int64
 }
 
 type Explorer struct {
@@ -257,6 +258,9 @@ type Path struct {
 	inInit       int
 	nchecks      int
 	merges       int
+	ctLenLimit   int
+	ctLens       int
+	ctMemo       map[*Term]bool
 	notes        []string
 	lockMon      func(g *Goroutine, key *Value, kind byte)
 }
@@ -290,6 +294,20 @@ func (p *Path) sibling(d Decision) {
 		site := p.sched.cur.curFr.stableSite()
 		p.ex.mu.Lock()
 		p.ex.forkSites[site]++
+		if k := os.Getenv("FORKKEY"); k != "" {
+			idx := 0
+			fmt.Sscanf(k, "%d", &idx)
+			n := 0
+			for _, r := range p.nondet {
+				if r.kind == "int" {
+					if n == idx {
+						p.ex.forkSites[fmt.Sprintf("key=%d", r.c)]++
+						break
+					}
+					n++
+				}
+			}
+		}
 		p.ex.mu.Unlock()
 	}
 	np := make([]Decision, len(p.trace)+1)
@@ -370,6 +388,12 @@ func (p *Path) concretize(t *Term) uint64 {
 	}
 	if v, ok := p.bound[t]; ok {
 		return v
+	}
+	if p.ctLenLimit > 0 && p.dependsOnCiphertext(t) {
+		p.ctLens++
+		if p.ctLens > p.ctLenLimit {
+			p.abort("cut", "more than the stated number of lengths derived from ciphertext bytes")
+		}
 	}
 	var val uint64
 	if p.pos < len(p.prefix) {
@@ -541,4 +565,23 @@ func (ex *Explorer) noteInconclusive(msg string) {
 	ex.mu.Lock()
 	defer ex.mu.Unlock()
 	ex.stats.Unsupported[msg]++
+}
+
+// dependsOnCiphertext reports whether t mentions a model-only ciphertext/enc variable.
+func (p *Path) dependsOnCiphertext(t *Term) bool {
+	if t == nil || t.op == OpConst {
+		return false
+	}
+	if t.op == OpVar {
+		return strings.HasSuffix(t.name, "_ct") || strings.HasSuffix(t.name, "_enc")
+	}
+	if p.ctMemo == nil {
+		p.ctMemo = make(map[*Term]bool)
+	}
+	if v, ok := p.ctMemo[t]; ok {
+		return v
+	}
+	r := p.dependsOnCiphertext(t.a) || p.dependsOnCiphertext(t.b) || p.dependsOnCiphertext(t.c)
+	p.ctMemo[t] = r
+	return r
 }
